@@ -49,8 +49,6 @@ contract(
         "all(fn[0] in " + _FD + " and has_attr(" + _FD + "[fn[0]], fn[1], 'bonding') and "
         "member(b, attr(" + _FD + "[fn[0]], fn[1], 'bonding')) for b in keys(fragments) for fn in fragments[b])",
         "all(" + _FD + "[f] != molecule for f in keys(" + _FD + "))",
-        "n_nodes(molecule) > 0",
-        "implies(has_attr(molecule, max_node_key(molecule), 'fragid'), len(attr(molecule, max_node_key(molecule), 'fragid')) > 0)",
         # reactivities are probabilities
         "all(polymer_reactivities[k] >= 0 for k in keys(polymer_reactivities))",
         "all(all(fragment_reactivities[a][k] >= 0 for k in keys(fragment_reactivities[a])) for a in keys(fragment_reactivities))",
@@ -88,6 +86,80 @@ contract(
     },
     loops={1: Loop(over='other_bonds', modifies=[], invariant=[
         "all(not member(x, self.terminal_bonds) and member(x, other_bonds) for x in clean_bonds)"])},
-    opaque=['complementary', 'is_descriptor', 'ends_in_digit'], abstract=['kind_ok'], heap_invariants=['descriptors'],
+    opaque=['complementary', 'is_descriptor', 'ends_in_digit'], abstract=['kind_ok'], heap_invariants=['descriptors', 'fragid'],
     examples=_ex_add_fragment,
+)
+
+
+# ------------------------------------------------------------------------------------------------ assumed callee contracts
+contract(
+    target='cgsmiles.pysmiles_utils:rebuild_h_atoms', trusted=True,
+    types={'mol_graph': 'Graph:mol'}, returns=None, modifies=["mol_graph"],
+    notes='assumed: completes hydrogens inside pysmiles (fill_valence / add_explicit_hydrogens); only its frame is used',
+    assumes=['pysmiles_utils.rebuild_h_atoms only modifies the graph it is given (its effect on valences is checked by the bounded tier, C09)'],
+)
+contract(
+    target='cgsmiles.graph_utils:sort_nodes_by_attr', trusted=True,
+    types={'graph': 'Graph:mol'}, returns='Graph:mol', modifies=[], allocates=True, returns_fresh=True,
+    ensures=["result != graph"],
+    notes='assumed here (relabelled copy via networkx.relabel_nodes); canonical numbering is checked by the bounded tier (C12, C16)',
+    assumes=['graph_utils.sort_nodes_by_attr returns a new graph and leaves its argument unchanged (networkx.relabel_nodes(copy=True))'],
+)
+contract(
+    target='cgsmiles.graph_utils:set_atom_names_atomistic', trusted=True,
+    types={'molecule': 'Graph:mol'}, returns=None, modifies=["molecule:attr:atomname"],
+    notes='assumed: writes only atomname',
+    assumes=['graph_utils.set_atom_names_atomistic writes only the atomname attribute'],
+)
+
+_WF_SAMPLER = [
+    "all(is_descriptor(b) for b in keys(self.fragments_by_bonding))",
+    "all(fn[0] in self.fragment_dict and has_attr(self.fragment_dict[fn[0]], fn[1], 'bonding') and "
+    "member(b, attr(self.fragment_dict[fn[0]], fn[1], 'bonding')) for b in keys(self.fragments_by_bonding) for fn in self.fragments_by_bonding[b])",
+    "all(f in self.fragment_masses and n_nodes(self.fragment_dict[f]) > 0 for f in keys(self.fragment_dict))",
+    "all(self.polymer_reactivities[k] >= 0 for k in keys(self.polymer_reactivities))",
+    "all(all(self.fragment_reactivities[a][k] >= 0 for k in keys(self.fragment_reactivities[a])) for a in keys(self.fragment_reactivities))",
+]
+
+
+def _ex_sample():
+    import logging
+    logging.getLogger('pysmiles').setLevel(logging.ERROR)
+    from cgsmiles.sample import MoleculeSampler
+    configs = [
+        ("{#PEO=[>]COC[<],#OH=[$]O}", dict(polymer_reactivities={'>': 0.5, '<': 0.5}, all_atom=True), [50, 100.5, 0, 44.05]),
+        ("{#A=[$][#a][#b][$],#B=[$A][#c]}", dict(polymer_reactivities={'$': 1.0, '$A': 0.0}, fragment_masses={'A': 2, 'B': 1}, all_atom=False), [1, 2, 5, 6.5]),
+        ("{#A=[>A][#a][<A]}", dict(polymer_reactivities={'>A': 0.5, '<A': 0.5}, fragment_masses={'A': 2.5}, all_atom=False), [5, 7.4, 7.5, 7.6]),
+    ]
+    for text, kw, targets in configs:
+        for seed in range(4):
+            for t in targets:
+                yield {'self': MoleculeSampler.from_fragment_string(text, seed=seed, **kw), 'target_weight': t, 'start_fragment': None}
+
+
+contract(
+    target='cgsmiles.sample:MoleculeSampler.sample', serves=['C17', 'C16'],
+    self_fields={'fragment_dict': 'Dict[Str,Graph:tmpl]', 'terminal_bonds': 'List[Str]',
+                 'fragments_by_bonding': 'DefaultDict[Str,List[Tuple[Str,Int]]]', 'polymer_reactivities': 'Dict[Str,Real]',
+                 'fragment_reactivities': 'Dict[Str,Dict[Str,Real]]', 'fragment_masses': 'Dict[Str,Real]', 'all_atom': 'Bool'},
+    types={'target_weight': 'Real', 'start_fragment': 'Opt[Str]'}, returns='Graph:mol',
+    requires=_WF_SAMPLER + ["implies(start_fragment is not None, start_fragment in self.fragment_dict)",
+                            "len(self.fragment_dict) > 0"],
+    ensures=[
+        # the summed mass of the fragments added during growth reaches the target and would be below it without the last one
+        "added >= target_weight",
+        "count == 0 or added - last < target_weight",
+    ],
+    raises={'ValueError': {'when': None}, 'IndexError': {'when': None}, 'OSError': {'when': None}, 'SyntaxError': {'when': None}},
+    modifies=[], allocates=True,
+    ghosts={'added': ('Real', '0'), 'last': ('Real', '0'), 'count': ('Int', '0')},
+    on_call={'add_fragment': ["last = self.fragment_masses[result[1]]", "added = added + self.fragment_masses[result[1]]", "count = count + 1"]},
+    loops={0: Loop(kind='while', over='current_weight < target_weight', modifies=["molecule"], invariant=[
+        "current_weight == added and count >= 0",
+        "count == 0 or added - last < target_weight",
+        "fresh_graph(molecule)",
+    ])},
+    callee_clauses={'merge_graphs': [], 'find_open_bonds': ['for b in keys(result) for n in result[b]', 'len(result[b]) > 0'], 'add_fragment': ['result[0] == molecule']},
+    opaque=['is_descriptor', 'complementary', 'ends_in_digit', 'kind_ok'], heap_invariants=['descriptors', 'fragid'],
+    examples=_ex_sample,
 )
